@@ -6,9 +6,17 @@ REF_MACRO = 'cJSON_IsReference'
 
 
 def _mentions_macro(e, name):
-    for x in walk(e):
-        if name in (x.get('m') or []):
-            return True
+    """The assignment e sets the flag `name` (ORs it in); clearing it (`& ~flag`) does not count."""
+    e = strip_casts(e)
+    if e.get('k') == 'bin' and e['op'] == '|=':
+        return any(name in (x.get('m') or []) for x in walk(e['r']))
+    if e.get('k') == 'bin' and e['op'] == '=':
+        for x in walk(e['r']):
+            if x.get('k') == 'bin' and x['op'] == '|':
+                for side in (x['l'], x['r']):
+                    s0 = strip_casts(side)
+                    if name in (s0.get('m') or []) and not (s0.get('k') == 'un' and s0['op'] == '~'):
+                        return True
     return False
 
 
@@ -69,7 +77,18 @@ def lst1(units, R):
                 continue
             cfg = cfg or fn.cfg()
             S = node_containing(cfg, a).id
-            P = {node_containing(cfg, pa).id for (pa, _pl) in pstores}
+            P = {node_containing(cfg, pa).id for (pa, pl) in pstores if expr_str(strip_casts(pl['b'])) == xchild}
+            PV = {node_containing(cfg, pa).id for (pa, pl) in pstores if expr_str(strip_casts(pl['b'])) == Vs} - P
+            # a store to V->prev only counts while the variables of V still hold the stored value
+            vvars = {x['d'] for x in walk(V) if x.get('k') == 'ref' and x.get('dk') in ('local', 'param')}
+            K = set()
+            for x in assignments(fn):
+                if is_ref(x['l']) and strip_casts(x['l'])['d'] in vvars and x is not a:
+                    K.add(node_containing(cfg, x).id)
+            for x in fn.nodes():
+                if x.get('k') == 'un' and x['op'] in ('post++', 'post--', 'pre++', 'pre--') and is_ref(x['e']) and \
+                        strip_casts(x['e'])['d'] in vvars:
+                    K.add(node_containing(cfg, x).id)
             # releasing the container is as good as fixing it
             for nd in cfg.nodes:
                 if nd.expr is None:
@@ -81,21 +100,24 @@ def lst1(units, R):
             names = {Vs, xchild, X}
 
             def reach(start, forward):
-                seen = {start}
-                work = [start]
+                # states (node, valid): valid = the variables of V have not been re-assigned since/before S
+                seen = {(start, True)}
+                work = [(start, True)]
                 adj = cfg.succ if forward else cfg.pred
                 while work:
-                    x = work.pop()
+                    x, valid = work.pop()
                     for (y, lab) in adj[x]:
-                        src = x if forward else y
                         if lab is not None and lab[0] in ('T', 'F') and _null_side(lab[1], lab[0] == 'T', names):
                             continue
-                        if y in P or y in seen:
+                        v2 = valid and y not in K
+                        if y in P or (y in PV and valid and y not in K):
                             continue
-                        seen.add(y)
-                        work.append(y)
-                return seen
-            if S in P:
+                        if (y, v2) in seen:
+                            continue
+                        seen.add((y, v2))
+                        work.append((y, v2))
+                return {n for (n, _v) in seen}
+            if S in P or S in PV:
                 ok = True
             else:
                 before = cfg.entry.id in reach(S, False)
